@@ -10,7 +10,7 @@ RULE = ("(A) MC_Core(stream + mutator families): 0<=pos<=len after every step, r
         "(A2)+(B2) Ref.tla: the machine of three live objects (BitStream, BitArray, Bits) explored as a state graph - "
         "0<=pos<=len and fixed classes in every reachable state, the immutable object constant, at most the target changes "
         "per step - and behaviours printed by tlc -simulate (8 calls each over mutators, stream calls, cross-object operands "
-        "and lsb0 toggles) replayed on the real classes. (C) random sequences of 4-12 stream operations and mutations. token reads (read/peek of one token, readlist/peeklist of random token lists incl. exp-Golomb and length-less tokens) from random positions are included.")
+        "and lsb0 toggles) replayed on the real classes. (A3) PosMachine.tla: the (length, position) abstraction with the documented movements as actions - Apalache proves 0<=pos<=len inductive (any length) and refutes a negative control; TLC checks that every step of the Ref machine refines it. (C) random sequences of 4-12 stream operations and mutations. token reads (read/peek of one token, readlist/peeklist of random token lists incl. exp-Golomb and length-less tokens) from random positions are included.")
 
 
 def run(chk):
@@ -19,6 +19,8 @@ def run(chk):
     from concurrent.futures import ThreadPoolExecutor
     vac_pool = ThreadPoolExecutor(max_workers=1)
     vac = vac_pool.submit(common.mc_core_vacuity, chk, 'stream')
+    apa_pool = ThreadPoolExecutor(max_workers=1)
+    apa = apa_pool.submit(common.prove_pos_machine, chk)
     join_ref = common.run_ref_machine(chk, mc=True, procs=16 if thorough else 6, num=60 if thorough else 4, thorough=thorough)
     common.run_families(chk, [('stream', L, 2, L)], STREAMS)
     mut = [('grow', 3, 2, 3), ('del', 2, 2, 2), ('setitem', 2, 2, 2), ('replace', 2, 1, 1), ('range', 2, 2, None)]
@@ -29,6 +31,8 @@ def run(chk):
     join_ref()
     vac.result()
     vac_pool.shutdown()
+    apa.result()
+    apa_pool.shutdown()
     chk.exhaustive = True
     common.run_random(chk, drivers.c06_program, 8000 if thorough else 1500, 6, huge=0.01 if thorough else 0.0)
     from harness import fmtprogs
